@@ -219,7 +219,7 @@ PROPS = {
                           "'equal in every observable respect' for implementation objects (defaults, value lists, transforms, activity, best values) is "
                           "evaluated by the suite's monitors on reloaded objects, not proved; from_config mutates the dict it is given (harmless, noted).",
             "assumptions": ["json module; dict ordering"]},
-    "C16": {"suites": [RPC],
+    "C16": {"suites": [RPC, ORACLE_SMALL],
             "level_text": "Theorems (Ktm/Props/C16.lean): values are not retyped by the message; for ANY regrouping of a parents-first space the decoder "
                           "returns a permutation in parents-first order (never needing its fallback); the chief's exit condition and the client-set "
                           "bookkeeping (a worker leaves the set exactly when told STOPPED). Observational equivalence of whole request sequences is "
